@@ -191,3 +191,47 @@ func vh_C18_read_differential() {
 	vAssert(vBytesEq(off0, on), "allocator on/off: byte-identical response")
 	vEmit("resp", on)
 }
+
+// tagging: whatever the client chose as request id, every page a READ takes is
+// recorded under the request's order id - the only key maybeSendPackets releases
+// (added after seeded change C18-b)
+func vh_C18_pages_tagged() {
+	vErrKinds = 0
+	oid := uint32(1 + vChoice(3))
+	var id uint32
+	switch vChoice(4) {
+	case 0:
+		id = oid
+	case 1:
+		id = oid - 1 // the stock client: INIT took order id 1
+	case 2:
+		id = oid + 1 // the order id of the next request
+	default:
+		id = 0x80000001
+	}
+	pkt := &sshFxpReadPacket{ID: id, Handle: "1", Offset: uint64(vChoice(3)), Len: uint32(vChoice(5))}
+	alloc := newAllocator()
+	alloc.GetPage(oid) // the page recvPacket read the request into
+	vEnvReset()
+	vHReset()
+	kind := vChoice(3)
+	if kind < 2 {
+		s := vNewRequestServer(Handlers{vH{}, vH{}, vH{}, vH{}}, "/")
+		s.pktMgr.alloc = alloc
+		vOpenRequestOfKind(s, kind*2) // reader or read-writer
+		s.pktMgr.packetCount = oid - 1
+		_, err := vRSStep(s, pkt)
+		vAssert(err == nil, "worker continues")
+	} else {
+		s := vNewServer(false, "")
+		s.pktMgr.alloc = alloc
+		s.openFiles["1"] = &vMFile{name: "/o", data: []byte{1, 2, 3}}
+		s.pktMgr.packetCount = oid - 1
+		_, got, err := vWorkerStep(s, pkt)
+		vAssert(err == nil && got == oid, "worker continues")
+	}
+	vAssert(alloc.countUsedPages() == len(alloc.used[oid]), "every page in use is recorded under the request's order id")
+	vAssert(len(alloc.used[oid]) == 2, "one page for the request, one for the data")
+	alloc.ReleasePages(oid)
+	vAssert(alloc.countUsedPages() == 0, "releasing the order id frees everything the request took")
+}
